@@ -1608,6 +1608,23 @@ impl Count {
         }
     }
 
+    /// If this count is `$field - literal`, return the field and the literal.
+    ///
+    /// This is the case for arrays where the first item is implicit, and the
+    /// stored count is one more than the length of the array.
+    pub(crate) fn field_minus_literal(&self) -> Option<(&syn::Ident, &syn::LitInt)> {
+        match self {
+            Count::Complicated {
+                args,
+                xform: CountTransform::Sub,
+            } => match args.as_slice() {
+                [CountArg::Field(ident), CountArg::Literal(lit)] => Some((ident, lit)),
+                _ => None,
+            },
+            _ => None,
+        }
+    }
+
     pub(crate) fn iter_referenced_fields(&self) -> impl Iterator<Item = &syn::Ident> {
         let (one, two) = match self {
             Self::SingleArg(CountArg::Field(ident)) => (Some(ident), None),
